@@ -1,5 +1,5 @@
 (* C03 — payloads accepted by validation expose only in-bounds data. *)
-Require Import CMP.Bytes CMP.Packet CMP.PacketProofs.
+Require Import CMP.Bytes CMP.Packet CMP.PacketProofs CMP.Tecmp CMP.Cir CMP.CodeRefine CMPGen.GenCode.
 Local Open Scope Z_scope.
 
 (* For every typed payload class (kind 1 CAN, 2 CAN-FD, 3 LIN, 7 analog, 8 Ethernet, 49 capture-module status, 50 interface status) and
@@ -26,7 +26,40 @@ Theorem C03_valid_message_ctor_in_bounds : forall buf,
 Proof. exact valid_packet_ctor_in_bounds. Qed.
 Print Assumptions C03_valid_message_ctor_in_bounds.
 
+(* Tie T2. The validators the theorems above speak about are the code: the bodies of the seven isValidPayload functions and of
+   Packet::isValidPacket, RE-TRANSLATED FROM /repo ON THIS RUN into the arithmetic IR of Cir.v (gen/GenCode.v) and evaluated with checked
+   reads (a read outside the buffer is Oob, unsigned arithmetic wraps at the C++ type's width, signed overflow / bad shifts fail),
+   return - for EVERY buffer - exactly what the model validator returns, and never read outside the buffer. Hence "accepted by the
+   compiled validator" implies the in-bounds views of the first theorem. (Buffers of 2^64 bytes or more do not exist.) *)
+Theorem C03_translated_validators_refine_the_model : forall d k c,
+  bytes_ok d -> zlen d < 2 ^ 64 -> code_of_kind k = Some c ->
+  ceval gen_reads d (penv d) c = Ok (b2z (valid_kind k d)).
+Proof. exact code_validator_refines. Qed.
+Print Assumptions C03_translated_validators_refine_the_model.
+
+Theorem C03_accepted_by_the_translated_code_exposes_in_bounds_views : forall d k c,
+  bytes_ok d -> zlen d < 2 ^ 64 -> code_of_kind k = Some c -> ceval gen_reads d (penv d) c = Ok 1 ->
+  exists w, view_kind k d = Some w /\ in_bounds k w (zlen d).
+Proof.
+  intros d k c Hd Hn Hc He. rewrite (code_validator_refines d k c Hd Hn Hc) in He.
+  apply valid_views_in_bounds; [assumption|]. destruct (valid_kind k d); [reflexivity|discriminate].
+Qed.
+Print Assumptions C03_accepted_by_the_translated_code_exposes_in_bounds_views.
+
+Theorem C03_translated_message_check_refines_the_model : forall d,
+  bytes_ok d -> zlen d < 2 ^ 64 -> ceval gen_reads d (penv d) code_Packet_isValidPacket = Ok (b2z (valid_packet d (zlen d))).
+Proof. exact code_valid_packet. Qed.
+Print Assumptions C03_translated_message_check_refines_the_model.
+
+Theorem C03_every_guard_function_translated : all_translated = true.
+Proof. vm_compute. reflexivity. Qed.
+
 (* non-vacuity: a LIN payload with 3 data bytes is accepted; one claiming 200 data bytes in 8 bytes is not *)
 Example C03_example : valid_kind 3 [0;0;0;0;5;0;7;3;1;2;3] = true /\ valid_kind 3 [0;0;0;0;5;0;7;200] = false /\
                       view_kind 3 [0;0;0;0;5;0;7;3;1;2;3] = Some [0;5;0;7;3;8;3;0;0;0;0;0;0;0;0;0].
+Proof. vm_compute. repeat split. Qed.
+(* the translated LIN validator, run on the same two buffers: accepts / rejects, in bounds *)
+Example C03_example_code : ceval gen_reads [0;0;0;0;5;0;7;3;1;2;3] (penv [0;0;0;0;5;0;7;3;1;2;3]) code_LinPayload_isValidPayload = Ok 1 /\
+                           ceval gen_reads [0;0;0;0;5;0;7;200] (penv [0;0;0;0;5;0;7;200]) code_LinPayload_isValidPayload = Ok 0 /\
+                           ceval gen_reads [0;0;0] (penv [0;0;0]) code_LinPayload_isValidPayload = Ok 0.
 Proof. vm_compute. repeat split. Qed.
